@@ -647,6 +647,15 @@ impl Sim {
     }
 }
 
+#[cfg(has_sender_prefix)]
+fn sender_prefix() -> &'static str {
+    staking::helpers::SENDER_PREFIX
+}
+#[cfg(not(has_sender_prefix))]
+fn sender_prefix() -> &'static str {
+    "?"
+}
+
 fn cw2_version(storage: &dyn Storage) -> Value {
     match storage.get(b"contract_info") {
         Some(v) => serde_json::from_slice::<Value>(&v).unwrap_or(Value::Null),
@@ -740,7 +749,7 @@ fn main() {
                 "staking_version": staking::contract::CONTRACT_VERSION,
                 "ibc_timeout_ns": staking::contract::IBC_TIMEOUT.nanos().to_string(),
                 "treasury_ibc_timeout_ns": treasury::execute::IBC_TIMEOUT.nanos().to_string(),
-                "sender_prefix": staking::helpers::SENDER_PREFIX,
+                "sender_prefix": sender_prefix(),
                 "build": if cfg!(feature = "miniwasm") { "miniwasm" } else { "osmosis" },
             }}),
             Some("quit") => break,
